@@ -6,7 +6,7 @@ var lfCensus = map[string]string{
 	"tensor.(*Dense).Format#flat1":        "flat ('%-v') formatting prints the backing array by documentation",
 	"tensor.(*Dense).Format#flat2":        "flat ('%-v') formatting prints the backing array by documentation",
 	"tensor.(*fmtState).calcWidth#flat1":  "column width is a maximum over all stored elements: order-insensitive",
-	"tensor.(*Dense).WriteNpy#flat1":      "LG L1 entry; the missing layout test is finding 18 (known finding of C14/C16)",
+	"tensor.(*Dense).WriteNpy#flat1":      "taken only when the tensor needs no iterator and is row-major (LG L1 entry; finding 18 fixed)",
 	"tensor.(*Dense).MaskFromDense#flat1": "mask construction is defined on storage positions (mask[i] belongs to data[i])",
 	"tensor.(*Dense).MaskFromDense#flat2": "mask construction is defined on storage positions",
 	"tensor.doMaskAll#flat1":              "order-insensitive fold over the whole mask, taken only when the mask covers exactly the tensor's elements",
